@@ -5,8 +5,10 @@
 set -u
 cd "$(dirname "$0")"
 TIER="${1:-quick}"; REPLAY="${2:-}"
+export VERIF_DIR="${VERIF_DIR:-$PWD}"
+CARGO_CFG=(); [ -n "${VERIF_REPO_OVERRIDE:-}" ] && CARGO_CFG=(--config "paths=[\"$VERIF_REPO_OVERRIDE\"]")
 SEED="${VERIF_SEED:-1}"
-EVDIR="${VERIF_EVIDENCE_DIR:-/verif/evidence}"
+EVDIR="${VERIF_EVIDENCE_DIR:-$VERIF_DIR/evidence}"
 export EVDIR
 mkdir -p target replays/C18 "$EVDIR"
 T0=$(date +%s.%N)
@@ -29,7 +31,7 @@ is_autotrait_failure() {
   grep -qE 'error\[E0277\]|error: future cannot be sent between threads safely' "$1" && grep -qE 'cannot be (sent|shared) between threads|`(Send|Sync)`' "$1"
 }
 static_half() {
-  ( cd sim && touch c18_static/src/lib.rs && cargo build --release --offline -p c18_static ) > target/c18_static.log 2>&1
+  ( cd sim && touch c18_static/src/lib.rs && cargo build --release --offline -p c18_static "${CARGO_CFG[@]}" ) > target/c18_static.log 2>&1
 }
 if [ -n "$REPLAY" ] && [[ "$REPLAY" == *.log ]]; then
   # a compiler-log "replay": re-run the compile-time obligations
@@ -41,20 +43,20 @@ if ! static_half; then
   if is_autotrait_failure target/c18_static.log; then
     R="replays/C18/static-$SEED.log"; cp target/c18_static.log "$R"
     grep -m3 -A8 'error\[E0277\]' target/c18_static.log
-    write_static_violation_evidence "/verif/$R"
+    write_static_violation_evidence "$VERIF_DIR/$R"
     echo "clause: auto-trait-obligation-fails"
-    echo "VIOLATION property=C18 replay=/verif/$R"
+    echo "VIOLATION property=C18 replay=$VERIF_DIR/$R"
     exit 1
   fi
   echo "HARNESS-ERROR: c18_static does not build (not an auto-trait error)" >&2; tail -20 target/c18_static.log >&2; exit 2
 fi
-( cd sim && cargo build --release --offline -p sim18 ) > target/build18.log 2>&1 || {
+( cd sim && cargo build --release --offline -p sim18 "${CARGO_CFG[@]}" ) > target/build18.log 2>&1 || {
   if is_autotrait_failure target/build18.log; then
     R="replays/C18/static-pool-$SEED.log"; cp target/build18.log "$R"
     grep -m3 -A8 'error\[E0277\]' target/build18.log
-    write_static_violation_evidence "/verif/$R"
+    write_static_violation_evidence "$VERIF_DIR/$R"
     echo "clause: auto-trait-obligation-fails (worker pool cannot hold the evaluation future)"
-    echo "VIOLATION property=C18 replay=/verif/$R"
+    echo "VIOLATION property=C18 replay=$VERIF_DIR/$R"
     exit 1
   fi
   echo "HARNESS-ERROR: sim18 does not build against /repo" >&2; tail -30 target/build18.log >&2; exit 2; }
@@ -64,7 +66,7 @@ if [ -n "$REPLAY" ]; then exec ./target/release/sim18 replay "$REPLAY"; fi
 MIRI_NOTE="not run in the quick tier"; MIRI_SEEDS=0; MIRI_RC=0
 if [ "$TIER" = "thorough" ]; then
   NSEEDS="${VERIF_MIRI_SEEDS:-64}"
-  ( cd sim/c18_miri && MIRIFLAGS="-Zmiri-many-seeds=0..$NSEEDS -Zmiri-preemption-rate=0.1" cargo +nightly miri run --offline ) > target/c18_miri.log 2>&1
+  ( cd sim/c18_miri && MIRIFLAGS="-Zmiri-many-seeds=0..$NSEEDS -Zmiri-preemption-rate=0.1" cargo +nightly miri run --offline "${CARGO_CFG[@]}" ) > target/c18_miri.log 2>&1
   MIRI_RC=$?
   MIRI_SEEDS=$NSEEDS
   if [ $MIRI_RC -ne 0 ]; then
@@ -72,7 +74,7 @@ if [ "$TIER" = "thorough" ]; then
       R="replays/C18/miri-$SEED.log"; cp target/c18_miri.log "$R"
       grep -m2 -B2 -A12 -E 'Data race detected|Undefined Behavior|differ' target/c18_miri.log | head -40
       echo "clause: data-race-or-divergence-under-miri"
-      echo "VIOLATION property=C18 replay=/verif/$R"
+      echo "VIOLATION property=C18 replay=$VERIF_DIR/$R"
       MIRI_NOTE="FAILED: see $R"; RC=1
     else
       echo "HARNESS-ERROR: miri run failed for another reason" >&2; tail -20 target/c18_miri.log >&2; exit 2
